@@ -26,7 +26,7 @@ CHECKS: dict[str, dict[str, str]] = {
     'C19': dict(
         technique='implementation-shaped TLA+ model of one watcher task (Streaming.tla) model-checked with a server (MC_Streaming) and bound to the code by trace validation of every watcher task (Trace_Streaming); TLA+ model of the list-then-watch continuity logic (Watching.tla) checked exhaustively with TLC; recorded executions of '
                   'the real operator against the stateful fake API checked by TLC against a TLA+ property automaton (WatchMonitor.tla); TLA+ reference of the observers (Observation.tla) judging every call of revise_resources / revise_namespaces',
-        text='[+ Observation.tla: what the resource and namespace observers make of the cluster (update per re-scanned group, ambiguity, suitability, really-gone namespaces, the documented glob semantics) as reference functions; every call inside the operators of the runs and on generated clusters x selectors x re-scans judged by TLC] [+ Trace_Orchestration: every adjustment of the real orchestrator (entry and return of adjust_tasks with the insights it reads) and every start / end of a watcher task against Orchestration.tla (rewritten over resources x namespaces: Spawnable / Kept); behaviours of the watcher model drawn by TLC (Sim_Streaming) replayed into the real operator] [+ Streaming.tla: the implementation-shaped, timed model of one watcher task (list/watch calls with api.request retries, Retry-After, reconnect_backoff, 410, client and inactivity timeouts, pause notice, cancellation), closed with a server in MC_Streaming (continuity laws, 2.2M states quick / 62M thorough, negative `jump` configuration); Trace_Streaming validates EVERY watcher task of every run second by second (version resumed from, instant of every request, hand-over of every event, closing on pause); a cluster-scoped kind under a namespace-restricted operator (known family F34)] [+ Orchestration.tla: observers vs orchestrator under the `revised` condition, Coverage for any number of revisions over 4 pairs, negative model loses a wake-up; CRDs modified at run time] Watching.tla: a server change log, a client that lists, watches from a remembered version and survives EOF, connection errors, '
+        text='[+ Discovery.tla: what scan_resources makes of the API discovery documents (resources, subresources, preferred versions, versions that are gone, limited re-scans) as a reference function judging the real function on generated documents] [+ Observation.tla: what the resource and namespace observers make of the cluster (update per re-scanned group, ambiguity, suitability, really-gone namespaces, the documented glob semantics) as reference functions; every call inside the operators of the runs and on generated clusters x selectors x re-scans judged by TLC] [+ Trace_Orchestration: every adjustment of the real orchestrator (entry and return of adjust_tasks with the insights it reads) and every start / end of a watcher task against Orchestration.tla (rewritten over resources x namespaces: Spawnable / Kept); behaviours of the watcher model drawn by TLC (Sim_Streaming) replayed into the real operator] [+ Streaming.tla: the implementation-shaped, timed model of one watcher task (list/watch calls with api.request retries, Retry-After, reconnect_backoff, 410, client and inactivity timeouts, pause notice, cancellation), closed with a server in MC_Streaming (continuity laws, 2.2M states quick / 62M thorough, negative `jump` configuration); Trace_Streaming validates EVERY watcher task of every run second by second (version resumed from, instant of every request, hand-over of every event, closing on pause); a cluster-scoped kind under a namespace-restricted operator (known family F34)] [+ Orchestration.tla: observers vs orchestrator under the `revised` condition, Coverage for any number of revisions over 4 pairs, negative model loses a wake-up; CRDs modified at run time] Watching.tla: a server change log, a client that lists, watches from a remembered version and survives EOF, connection errors, '
              'timeouts, 410 after compaction, bookmarks and an unknown ERROR; NoSkip / SinceNeverAhead / AllReach hold in every reachable '
              'state for 4 changes x 3 faults (two configurations), and a negative configuration (resume version ahead of the stream) must '
              'fail. The real operator then runs random object histories with stream faults at random positions, and namespace/CRD churn under '
